@@ -336,3 +336,13 @@ def classify_path(sb, path, pred):
     if p.startswith(sb.root):
         return "box"
     return "other"
+
+
+def in_scope(call, sb):
+    """Faults are injected only into calls on the sandbox or the type information, never into the
+    dynamic loader's or the runtime's start-up I/O (/lib, /etc, /proc): that is not qmluic."""
+    ps = ([call.fdpath] if call.fdpath else []) + list(call.paths)
+    ps = [p for p in ps if p and not p.startswith("<")]
+    if not ps:
+        return False
+    return all(posixpath.normpath(p).startswith(sb.root) or posixpath.normpath(p).startswith(sb.env.metatypes) for p in ps)
